@@ -773,3 +773,27 @@ Handle.linearize = _h_linearize
 Handle.solve_nonlinear = _h_solve_nonlinear
 Handle.solve_linear = _h_solve_linear
 Handle.true_jac_res = _h_true_jac_res
+
+
+def _h_jacvec(self, ins, d_inputs, d_outputs, mode):
+    """run the real compute_jacvec_product on copies of d_inputs / d_outputs (the method accumulates with +=)"""
+    self.env.functions.add("%s.compute_jacvec_product" % self.fq)
+    if self.env.sym:
+        vec = self._symvec(ins)
+        di = sx.SymVec()
+        do = sx.SymVec()
+        for n in self.in_names:
+            di.init(n, np.array(S.lift(np.asarray(d_inputs[n], dtype=object)), dtype=object).reshape(self.shape[n]).view(S.SymArray))
+        for n in self.out_names:
+            do.init(n, np.array(S.lift(np.asarray(d_outputs[n], dtype=object)), dtype=object).reshape(self.shape[n]).view(S.SymArray))
+        with sx.patched():
+            self.comp.compute_jacvec_product(vec, di, do, mode)
+        return dict(di), dict(do)
+    vec = sx._NativeVec({n: np.array(np.broadcast_to(np.asarray(ins[n], dtype=float), self.shape[n])) for n in self.in_names})
+    di = sx._NativeVec({n: np.array(np.broadcast_to(np.asarray(d_inputs[n], dtype=float), self.shape[n])) for n in self.in_names})
+    do = sx._NativeVec({n: np.array(np.broadcast_to(np.asarray(d_outputs[n], dtype=float), self.shape[n])) for n in self.out_names})
+    self.comp.compute_jacvec_product(vec, di, do, mode)
+    return dict(di), dict(do)
+
+
+Handle.jacvec = _h_jacvec
